@@ -55,6 +55,9 @@ static const std::vector<uint8_t>* gKey; static const std::vector<uint8_t>* gSig
 static const Address* gAddr;
 static int gVerifyCalls = 0, gDerivedCalls = 0, gHdrCalls = 0;
 static std::vector<uint8_t>* gHdrRootSeen;
+#ifdef REAL_KEYPARSE
+namespace altintegration { void* secp256k1_context_create(unsigned) { return nullptr; } }   // libsecp256k1 itself is not linked: its context (a global of secp256k1.cpp) is never used on the explored paths
+#endif
 namespace altintegration {
 uint256 sha256(Slice<const uint8_t> a, Slice<const uint8_t> b) { return ufHash(1, a, b); }
 uint256 sha256twice(Slice<const uint8_t> a, Slice<const uint8_t> b) { return ufHash(2, a, b); }
@@ -67,12 +70,16 @@ bool Address::isDerivedFromPublicKey(Slice<const uint8_t> pk) const {
   return gDerived;
 }
 namespace secp256k1 {
+#ifndef REAL_KEYPARSE
 PublicKey publicKeyFromVbk(PublicKeyVbk key) { PublicKey k; for (size_t i = 0; i < key.size() && i < k.size(); i++) ((uint8_t*)k.data())[i] = key[i]; return k; }
+#endif
 bool verify(Slice<const uint8_t> message, Signature signature, PublicKey publicKey) {
   gVerifyCalls++;
   bool same = message.size() == 32 && signature == *gSig;
   for (size_t i = 0; same && i < 32; i++) same = message[i] == gMsg->data()[i];
+#ifndef REAL_KEYPARSE
   for (size_t i = 0; same && i < gKey->size() && i < publicKey.size(); i++) same = publicKey.data()[i] == (*gKey)[i];
+#endif
   verif_check(same, 981);                                                                      // the signature is verified over the transaction's own hash, signature and key
   return gSigOk;
 }
@@ -132,6 +139,16 @@ extern "C" __attribute__((noinline)) void h_compose() {
   gHdrOk = verif_bool();
   gKey = &tx.publicKey; gSig = &tx.signature; gMsg = &gTxHash; gAddr = &tx.sourceAddress;
   tx.publicKey = std::vector<uint8_t>(8, 3); tx.signature = std::vector<uint8_t>(8, 4);
+#ifdef REAL_KEYPARSE
+  // the REAL secp256k1::publicKeyFromVbk parses the carried key: malformed keys (wrong length, wrong format byte) must make the check
+  // return an invalid state - not throw past checkATV.  (Well-formed keys would enter libsecp256k1, which is not encoded: not generated.)
+  { uint32_t kf = verif_choice(0, 4);
+    if (kf == 1) { tx.publicKey = std::vector<uint8_t>(33, 7); }                      // compressed size, format byte neither 02 nor 03
+    if (kf == 2) { tx.publicKey = std::vector<uint8_t>(65, 7); }                      // uncompressed size, format byte not 04
+    if (kf == 3) { tx.publicKey = std::vector<uint8_t>(88, 7); }                      // ASN.1 size, byte 23 not 04
+    if (kf == 4) { tx.publicKey = std::vector<uint8_t>(); }                           // empty
+    verif_cover(10 + (int)kf); }
+#endif
   bool magicOk = verif_cbool();
   tx.networkOrType.networkType = magic;
   if (!magicOk) { if (verif_cbool()) tx.networkOrType.networkType.hasValue = !magic.hasValue; else { tx.networkOrType.networkType.hasValue = true; tx.networkOrType.networkType.value = (uint8_t)(magic.value + 1); } }
@@ -164,11 +181,18 @@ extern "C" __attribute__((noinline)) void h_compose() {
     verif_check(gHdrRootSeen->size() == 32 && eqBytes(gHdrRootSeen->data(), tl.data(), 32), 10);
   }
   bool expect = nout <= (uint32_t)MAX_OUTPUTS_COUNT && magicOk && feeOk && idOk && ctxOk && hdrAuth && gDerived && gSigOk && subjectOk && rootOk;
+#ifdef REAL_KEYPARSE
+  expect = false;                                                      // every generated key is malformed
+#endif
   verif_check(got == expect, 1);                                      // valid exactly when every fact holds
   verif_check(atv.checked == got, 2);                                 // the memo is set only by a successful full check
   verif_check(got == st.IsValid(), 3);
+#ifndef REAL_KEYPARSE
   if (got) { verif_check(gVerifyCalls == 1 && gDerivedCalls == 1 && gHdrCalls == 1, 4); verif_cover(1); if (atv.merklePath.layers.size() >= 2) verif_cover(2); }
   else verif_cover(3);
+#else
+  if (gDerivedCalls) verif_cover(3);
+#endif
   if (!rootOk && nout <= 2 && magicOk && feeOk && idOk && ctxOk && hdrAuth && gDerived && gSigOk && subjectOk) verif_cover(4);
   auto& st2 = *new ValidationState();
   verif_check(checkATV(atv, st2, ap, vbk) == got, 5);                 // repeatable
